@@ -151,7 +151,21 @@ def run(ctx):
                 order += [rng.randrange(n)] * rng.choice([1, 2, 3, 5])
         gate = Gate(order, n)
         results = {}
-        threads = [threading.Thread(target=worker, args=(I, gate, t, per_thread[t], results, gate_funcs)) for t in range(n)]
+        # the caller itself has used the thread-safe entry point before; some workers are started in a copy of
+        # the caller's context (what asyncio.to_thread / executors with context propagation do)
+        try:
+            I.thread.parse("caller AND first")
+        except Exception:
+            pass
+        import contextvars
+        threads = []
+        for t in range(n):
+            args = (I, gate, t, per_thread[t], results, gate_funcs)
+            if i % 2 == 1 and t % 2 == 0:
+                cctx = contextvars.copy_context()
+                threads.append(threading.Thread(target=cctx.run, args=(worker,) + args))
+            else:
+                threads.append(threading.Thread(target=worker, args=args))
         for th in threads:
             th.start()
         for th in threads:
